@@ -200,10 +200,16 @@ def build(kind, v, order):
     elif kind == "irs":
         o.version = v["ver"]
         n = o._n
+        edges = []
         if v["e1"]:
-            o.cfg.add(gtirb.Edge(n[0] if v["e1"] == 1 else n[1], n[1], _label(v["l1"], v["c1"], v["d1"])))
+            edges.append(gtirb.Edge(n[0] if v["e1"] == 1 else n[1], n[1], _label(v["l1"], v["c1"], v["d1"])))
         if v["e2"]:
-            o.cfg.add(gtirb.Edge(n[0], n[1], _label(1, False, False)))
+            edges.append(gtirb.Edge(n[0], n[1], _label(1, False, False)))
+            edges.append(gtirb.Edge(n[0], n[1], _label(1, True, False)))
+        if order:
+            edges.reverse()         # parallel edges enter the two graphs in opposite orders
+        for e in edges:
+            o.cfg.add(e)
     return o
 
 
@@ -243,6 +249,7 @@ def canon(kind, v):
             edges.add((0 if g("e1") == 1 else 1, 1, None if g("l1") == 0 else ((g("l1") - 1) % len(ETYPES), g("c1"), g("d1"))))
         if g("e2"):
             edges.add((0, 1, (0, False, False)))
+            edges.add((0, 1, (0, True, False)))
         return (g("uuid"), g("nmod"), tuple(sorted(edges, key=str)), AUX3[g("aux")], g("ver"))
     raise AssertionError(kind)
 
